@@ -42,14 +42,18 @@ def specRun {κ σ : Type} (step : σ → Op κ → σ × Out) (s : σ) : List (
     let r' := specRun step r.1 ops
     (r'.1, r.2 :: r'.2)
 
+/-- AVL tree state: the tree and the number of nodes allocated so far (= the identity the
+next allocated node gets) -/
+abbrev AvlSt := T × Nat
+
 /-- AVL tree: `muggle_avl_tree_insert`, `_find`, `_find` + `_remove` -/
-def avlStep (t : T) : Op Int → Except Err (T × Out)
-  | .ins k v => match t.insert k v with
-    | .ok (t', b) => .ok (t', .flag b)
+def avlStep (s : AvlSt) : Op Int → Except Err (AvlSt × Out)
+  | .ins k v => match s.1.insert k v s.2 with
+    | .ok (t', b) => .ok ((t', if b then s.2 + 1 else s.2), .flag b)
     | .error e => .error e
-  | .find k => .ok (t, .val (t.find k))
-  | .rm k => match t.remove k with
-    | .ok (t', b) => .ok (t', .flag b)
+  | .find k => .ok (s, .val (s.1.find k))
+  | .rm k => match s.1.remove k with
+    | .ok (t', b) => .ok ((t', s.2), .flag b)
     | .error e => .error e
 
 /-- hash table: `muggle_hash_table_put`, `_find`, `_find` + `_remove` -/
